@@ -205,6 +205,18 @@ class TreeCheck:
             scratch=os.path.join(scratch, "p1"),
             strip=("_base",),
         )
+        # ---- cost control: cap derived cases that fall in a known (open) hang class
+        capped = {}
+        kept = []
+        for c in derived:
+            k = self.known_hang_class(c)
+            if k is not None:
+                capped[k] = capped.get(k, 0) + 1
+                if capped[k] > (2 if tier == "quick" else 6):
+                    continue
+            kept.append(c)
+        cov["capped_known_hang_class_cases"] = {k: v for k, v in capped.items()}
+        derived = kept
         # ---- phase 2: derived cases
         rng.shuffle(derived) if self.shuffle_derived else None
         remaining = max(10.0, budget_s - (time.monotonic() - t0))
@@ -231,6 +243,14 @@ class TreeCheck:
         return rc
 
     shuffle_derived = False
+
+    def known_hang_class(self, case):
+        """Plans that are known to end in an open hang finding (40 s each): a worker
+        death placed inside the result-queue put (F10)."""
+        for r in case["plan"].get("rules", []):
+            if r.get("role") == "worker" and r.get("action", [""])[0] in ("kill", "exit", "cexit") and r.get("qual") in ("SemLock.__exit__", "SimpleQueue.put"):
+                return "F10"
+        return None
 
     def budget(self, tier):
         return 150 if tier == "quick" else 1800
